@@ -1262,7 +1262,8 @@ def tlaps_recover(ctx):
 
 def resize_design(ctx):
     """Resize.tla: the file grows and shrinks while commits and crashes go on; two seeded-bad variants"""
-    tlc_check(ctx, "Resize", "MC_Resize.cfg", workers=6, timeout=1200)
+    # (thorough: MaxQ = 12, 4 versions: 10.8 M states)
+    tlc_check(ctx, "Resize", tiered(ctx, "MC_Resize.cfg", "MC_Resize_large.cfg"), workers=tiered(ctx, 6, 8), timeout=3600)
     tlc_expect_violation(ctx, "Resize", "MC_Resize_nogrowsync.cfg", "Safe", workers=2)
     tlc_expect_violation(ctx, "Resize", "MC_Resize_cutold.cfg", "ReadersWithin", workers=4)
     if ctx.tier == "thorough":
